@@ -656,7 +656,7 @@ func (s *Store[K, V]) sinkWrite(item WriteBufItem[K, V]) {
 
 	// ignore removed entries, except code NEW
 	// which will reset removed flag
-	if entry.flag.IsRemoved() && item.code != NEW {
+	if entry.flag.IsRemoved() && item.code != NEW && item.code != REMOVE {
 		return
 	}
 
